@@ -279,7 +279,7 @@ struct LcSim : Harness {
     prog_json = &plan.at("prog"); sigs = prog::signatures(*prog_json);
     if (mode == "C13") for (const char *nm : {"f", "g", "h"}) if (!sigs.count(nm)) { FuncInfo fi; fi.name = nm; fi.na = 1; fi.ps = "q"; sigs[nm] = fi; }  // names that only externals define
     mods.assign(prog_json->at("mods").size(), Mod()); fns.clear(); G.clear(); bound.clear(); bound_inlined.clear(); bound_late.clear(); use_impl_bindings = false; pending.clear(); foreign.clear(); ext_log.clear(); reenter_addr.clear(); reenter_name.clear(); resolver_k.clear(); resolver_asked.clear();
-    gen_on = c2m_on = ext_loaded = false; opt_level = 2; redef_allowed = false; expect_error = alt_error = -1; ever_exported_fn.clear(); ext_depth = 0; mdepth = 0; store.clear();
+    gen_on = c2m_on = ext_loaded = false; opt_level = 2; redef_allowed = false; expect_error = alt_error = -1; open_mod = nullptr; n_open = 0; ever_exported_fn.clear(); ext_depth = 0; mdepth = 0; store.clear();
     for (size_t mi = 0; mi < prog_json->at("mods").size(); mi++) for (auto &f : prog_json->at("mods")[mi].at("funcs").a) { Fn fn; fn.def = &f; fn.mod = (int) mi; prog::walk(f.at("body"), [&](const Json &st) { if (st[0].s == "lt" || st[0].s == "ld") fn.has_lt = true; }); fns[f.gets("name")].push_back(fn); }
     if (auto re = kn.find("reenter")) for (auto &p : re->o) reenter_name[atoll(p.first.c_str())] = p.second.s;
     if (auto rs = kn.find("resolver")) for (auto &p : rs->o) resolver_k[p.first] = (int) p.second.num();
@@ -315,6 +315,7 @@ struct LcSim : Harness {
     return out;
   }
 
+  MIR_module_t open_mod = nullptr; int n_open = 0;
   int expect_error = -1, alt_error = -1; std::string expect_error_why;  // set by the history model before an op that must fail (C13)
   void on_error(Outcome &out) {
     if (expect_error >= 0) {
@@ -342,7 +343,13 @@ struct LcSim : Harness {
     }
   }
 
+  void close_open_mod() {
+    if (!open_mod) return;
+    phase("MIR_new_proto + MIR_finish_module of the open module"); MIR_type_t rt = MIR_T_I64; MIR_var_t v; v.type = MIR_T_I64; v.name = "a";
+    MIR_new_proto_arr(ctx, "p_open", 1, &rt, 1, &v); MIR_new_import(ctx, "ext"); MIR_finish_module(ctx); open_mod = nullptr;
+  }
   void do_finish(Outcome &out) {
+    close_open_mod();
     if (gen_on) { phase("MIR_gen_finish"); MIR_gen_finish(ctx); gen_on = false; }
     if (c2m_on) { phase("c2mir_finish"); c2mir_finish(ctx); c2m_on = false; }
     phase("MIR_finish"); MIR_finish(ctx); ctx = nullptr;
@@ -366,6 +373,7 @@ struct LcSim : Harness {
   void exec_op(const Json &op, Outcome &out) {
     const std::string &o = op[0].s; size_t nm = mods.size();
     auto argi = [&](size_t i) -> int64_t { return i < op.size() ? op[i].num() : 0; };
+    if (o == "scan" || o == "c2m" || o == "bin" || o == "out" || o == "outitem" || o == "write") close_open_mod();  // these create modules or walk all of them
     if (o == "scan" || o == "c2m" || o == "bin") {
       if (nm == 0) return; size_t mi = (size_t) argi(1) % nm; if (mods[mi].created) return;
       MIR_module_t before = DLIST_TAIL(MIR_module_t, *MIR_get_module_list(ctx));
@@ -406,6 +414,9 @@ struct LcSim : Harness {
       phase("MIR_load_external", name); MIR_load_external(ctx, name.c_str(), isd ? (void *) extdata_addr(k) : extdef_addr(k));
       { auto it = G.find(name); if (it != G.end()) C->count(it->second.external ? "c13_external_over_external" : "c13_external_over_export"); }
       Def d; d.def = isd ? extdata_def(k) : extdef_def(k); d.external = true; d.k = k; G[name] = d; C->count("load_external");
+    } else if (o == "openmod") {  // the user starts building another module through the API and goes on using the context
+      if (!open_mod) { phase("MIR_new_module"); open_mod = MIR_new_module(ctx, fmt("open%d", ++n_open).c_str()); C->count("module_left_open_during_other_work"); }
+    } else if (o == "closemod") { close_open_mod();
     } else if (o == "redef") { redef_allowed = argi(1) != 0; MIR_set_func_redef_permission(ctx, redef_allowed ? 1 : 0); }
     else if (o == "geninit") { if (gen_on) return; phase("MIR_gen_init"); MIR_gen_init(ctx); gen_on = true; MIR_gen_set_optimize_level(ctx, (unsigned) opt_level); }
     else if (o == "genfinish") { if (!gen_on || lazy_pending()) return; phase("MIR_gen_finish"); MIR_gen_finish(ctx); gen_on = false; }
@@ -796,6 +807,13 @@ struct LcSim : Harness {
       for (auto &mo : prog.at("mods").a) for (auto &f : mo.at("funcs").a) { bool leaf = true; prog::walk(f.at("body"), [&](const Json &st) { if (st[0].s == "call" || st[0].s == "icall" || st[0].s == "ext" || st[0].s == "jt" || st[0].s == "lt" || st[0].s == "ld" || st[0].s == "extn" || st[0].s == "extm") leaf = false; }); if (leaf && f.geti("na") >= 2 && f.geti("na") <= 8 && !f.has("ps") && !f.has("rt") && re.size() < 2) re.set(std::to_string(1 + (int) re.size() * 2), f.gets("name")); }
       if (re.size()) kn.set("reenter", re);
     }
+    { Rng ro(mix2(r.next(), 0x6f70656e6d6f64ull));  // a module under construction while other functions are generated and run
+      size_t first_link = ops.a.size(); for (size_t k = 0; k < ops.a.size(); k++) if (ops[k][0].s == "link") { first_link = k; break; }
+      if (ro.chance(1, 5) && first_link + 1 < ops.a.size()) {
+        size_t a = first_link + 1 + ro.below(ops.a.size() - first_link - 1), b = a + 1 + ro.below(ops.a.size() - a);
+        Json om = Json::array(); om.push("openmod"); Json cm = Json::array(); cm.push("closemod");
+        ops.a.insert(ops.a.begin() + (long) b, cm); ops.a.insert(ops.a.begin() + (long) a, om);
+      } }
     { Rng rv(mix2(r.next(), 0x7661726961646963ull)); for (auto &op : ops.a) if (op[0].s == "interp") op.push((int) rv.coin()); }  // 1: enter through the variadic MIR_interp, 0: MIR_interp_arr
     plan.set("knobs", kn); plan.set("prog", prog); plan.set("ops", ops);
     return plan;
